@@ -158,7 +158,7 @@ func Run(opt Options, body func()) *Exec {
 		t.wake <- struct{}{}
 		select {
 		case <-t.exited:
-		case <-time.After(20 * time.Second):
+		case <-time.After(180 * time.Second):
 			fmt.Fprintf(os.Stderr, "vsched: thread %s does not unwind (blocked on an unmodelled primitive?)\n", t.name)
 			os.Exit(2)
 		}
